@@ -273,6 +273,8 @@ void XMLWriter::nail(int x, int y)
 void XMLWriter::transition(const edge_t& edge)
 {
     startElement("transition");
+    if (!edge.control)
+        writeAttribute("controllable", "false");
     // source and target
     auto src = source(edge);
     auto dst = target(edge);
